@@ -406,6 +406,76 @@ def check_json_close(eng, run, rule="C01.esc"):
     run.ob(rule, f"{rp.short}:end-of-frame-test-covers-negative-counts", ok, decrements=len(decs), guarded=guarded)
 
 
+def check_stapled_dispatch(eng, run, rule="C01.tbl"):
+    """the composite (stapled) serializer chooses its class - hence which receive paths exist - from the capabilities of its two halves:
+    every `case (<sent class>, <received class>)` of the dispatching `match` constructs the class that the `@overload` with the same
+    pair of parameter types declares (declared table vs implemented table; a swapped pattern gives the buffered interface to a
+    pair whose *received* half cannot fill a buffer)"""
+    mod = eng.db.module("serializers.composite")
+    n = 0
+    for ci in mod.classes.values():
+        news = [st for st in ci.node.body if isinstance(st, ast.FunctionDef) and st.name == "__new__"]
+        impl = [f for f in news if not any("overload" in ast.unparse(d) for d in f.decorator_list)]
+        overloads = [f for f in news if any("overload" in ast.unparse(d) for d in f.decorator_list)]
+        if not impl or not overloads:
+            continue
+
+        def base(e):
+            if e is None:
+                return None
+            if isinstance(e, ast.Subscript):
+                e = e.value
+            return (dotted(e) or "").split(".")[-1] or None
+
+        declared = {}
+        for o in overloads:
+            ps = o.args.args[1:]
+            if len(ps) == 2:
+                declared[(base(ps[0].annotation), base(ps[1].annotation))] = base(o.returns)
+        for m in [x for x in ast.walk(impl[0]) if isinstance(x, ast.Match)]:
+            subj = m.subject
+            order = [dotted(e) for e in subj.elts] if isinstance(subj, ast.Tuple) else None
+            params = [a.arg for a in impl[0].args.args[1:]]
+            if order != params:
+                continue
+            for case in m.cases:
+                pat = case.pattern
+                if not (isinstance(pat, ast.MatchSequence) and len(pat.patterns) == 2 and all(isinstance(p_, ast.MatchClass) for p_ in pat.patterns)):
+                    continue
+                key = tuple(base(p_.cls) for p_ in pat.patterns)
+                built = None
+                for c in ast.walk(ast.Module(body=case.body, type_ignores=[])):
+                    if isinstance(c, ast.Call) and isinstance(c.func, ast.Attribute) and c.func.attr == "__new__" and c.args:
+                        built = base(c.args[0])
+                n += 1
+                want = declared.get(key)
+                ok = want is not None and (built == want or (want == "Self" and built in ("cls", None)))
+                if not ok:
+                    run.finding(rule, eng.db.fn(f"serializers.composite:{ci.name}.__new__"), case.pattern, f"`case ({key[0]}(), {key[1]}())` constructs {built} but " + (
+                        f"the overload for that pair declares {want}" if want else "no overload declares that (sent, received) pair") +
+                        ": the composite advertises a receive interface that its *received* half does not have (or hides one it has)")
+                run.ob(rule, f"{ci.name}.__new__:case({key[0]},{key[1]})->{built}", ok, declared=want)
+    run.floor(f"{rule} stapled-serializer dispatch cases", n, 2)
+
+
+def check_transport_side(eng, run):
+    """below the serializers, on the way from the socket to the consumer: the asyncio protocol's copy-out paths conserve bytes and read
+    the raw buffer only as `[:level]` (rules of C10.flow), and the request / packet receivers never hold a packet already taken from
+    the consumer across a cancellable suspension point (hold typestate of C10) - otherwise what arrives depends on how reads and
+    handler polls interleave, i.e. on the chunking"""
+    from rules import c10
+    from sa.report import RuleAlias
+    c10.check_conservation(eng, run, rule="C01.flow")
+    c10.check_raw_buffer_reads(eng, run, rule="C01.flow")
+    n = 0
+    for q in ("lowlevel.api_async.servers.stream:_RequestReceiver.next", "lowlevel.api_async.servers.stream:_BufferedRequestReceiver.next",
+              "lowlevel.api_async.endpoints.stream:_DataReceiverImpl.receive", "lowlevel.api_async.endpoints.stream:_BufferedReceiverImpl.receive"):
+        fn = eng.db.fn(q)
+        n += 1
+        c10.check_hold(eng, RuleAlias(run, "C01.flow"), fn, "C01.flow")
+    run.floor("C01.flow asynchronous receivers", n, 4)
+
+
 def check_tbl(eng, run):
     db = eng.db
     # AutoSeparated: one separator attribute for the writer and both readers
@@ -713,6 +783,8 @@ def run(eng, run):
     check_copy(eng, run)
     check_esc(eng, run)
     check_json_close(eng, run)
+    check_stapled_dispatch(eng, run)
+    check_transport_side(eng, run)
     from rules.c05 import check_codec
     from sa.report import RuleAlias
     check_codec(eng, RuleAlias(run, "C01.tbl"))
@@ -840,4 +912,16 @@ MUTANTS += [
 BENIGN += [
     Variant("json-end-of-frame-test-lt-1", "serializers.json:_JSONParser.raw_parse", lambda fn: replace_expr(fn, "enclosure_counter[first_enclosure] <= 0", "enclosure_counter[first_enclosure] < 1"),
             why="same test written as < 1"),
+]
+
+
+
+def _swap_first_case(fn):
+    m = next(x for x in ast.walk(fn) if isinstance(x, ast.Match))
+    m.cases[0].pattern.patterns.reverse()
+
+
+MUTANTS += [
+    Variant("stapled-dispatch-first-case-swapped", "serializers.composite:StapledPacketSerializer.__new__", _swap_first_case, "C01.tbl",
+            why="the buffered composite is chosen from the *sent* half: AttributeError on the first buffered receive / buffered path lost (seed C01-7)"),
 ]
